@@ -168,3 +168,53 @@ def replay_case(case, result):
     c = json.loads(json.dumps(case))
     c["policy"] = {"kind": "replay", "delivered": result["delivered"]}
     return c
+
+
+# ---------------------------------------------------------------------------
+# stateless depth-first enumeration of reply schedules on the REAL scheduler
+
+
+def dfs_schedules(case, max_early=1, limit=2000):
+    """Enumerate all schedules of `case` (choice points: which outstanding reply is delivered at
+    quiescence; up to `max_early` deliveries before quiescence) by re-execution with choice prefixes.
+    Yields (case_with_choice_policy, result); `limit` bounds the number of executions."""
+    from . import drive
+
+    stack = [[]]
+    n = 0
+    seen = set()
+    while stack and n < limit:
+        prefix = stack.pop()
+        pol = behave.ChoicePolicy(prefix, max_early=max_early)
+        seed = case.get("seed", 0)
+        beh = _behaviour(case.get("behaviour", {}), seed)
+        ctx = drive.execute(case["scn"], beh, pol, run_kw=case.get("run_kw"), world_kw=case.get("world_kw"))
+        n += 1
+        c = dict(case, id=list(case["id"]) + ["dfs", n], policy={"kind": "replay", "delivered": [list(d) for d in ctx.delivered]})
+        res = {"id": c["id"], "outcome": ctx.outcome, "delivered": [list(d) for d in ctx.delivered],
+               "item": monitor.batch_item(c["id"], ctx.scn, ctx.trace), "deviations": 0,
+               "pending_at_close": getattr(ctx.loop, "pending_at_close", None), "loop_closed": ctx.loop.is_closed()}
+        key = json.dumps(res["item"]["ev"], sort_keys=True)
+        if key not in seen:
+            seen.add(key)
+            yield c, res
+        # expand every decision point beyond the prefix
+        for pos in range(len(prefix), len(pol.options)):
+            for alt in range(1, pol.options[pos]):
+                stack.append(prefix + [0] * (pos - len(prefix)) + [alt])
+
+
+def _dfs_worker(args):
+    case, max_early, limit = args
+    return list(dfs_schedules(case, max_early, limit))
+
+
+def run_dfs(cases, max_early=1, limit=2000, jobs=None):
+    """DFS over the schedules of several cases, one worker process per case."""
+    jobs = jobs or min(16, os.cpu_count() or 4)
+    cases = list(cases)
+    if not cases:
+        return []
+    with mp.get_context("fork").Pool(min(jobs, len(cases))) as pool:
+        res = pool.map(_dfs_worker, [(c, max_early, limit) for c in cases])
+    return [x for r in res for x in r]
